@@ -5,6 +5,7 @@ package main
 // re-derives the actual sets and compares.
 
 import (
+	"go/types"
 	"fmt"
 	"sort"
 	"strings"
@@ -241,7 +242,13 @@ func rulePipeline(c *Ctx, rule string, want func(q queueSpec) bool, strictNew bo
 		}
 		sort.Strings(unknown)
 		for _, k := range unknown {
-			c.check(rule, "NEW-CONSTRUCT:queue:"+k, false, "channel make site not in the frozen queue table: an unknown queue cannot be assumed order-preserving or escapable", p.ipos(acts[k].mk))
+			// only a queue that can carry envelopes (or structs / pointers holding them) can reorder, duplicate or lose
+			// them; a new signalling channel is left to the generic rules (close/send exclusion, blocking under locks)
+			if !carriesEnvelope(acts[k].mk.Type().Underlying().(*types.Chan).Elem(), 0) {
+				c.trivial(rule, "new-queue:"+k, true, "new channel whose element type holds no envelope: not a stage of the envelope pipeline", p.ipos(acts[k].mk))
+				continue
+			}
+			c.check(rule, "NEW-CONSTRUCT:queue:"+k, false, "channel make site not in the frozen queue table: an unknown queue of envelopes cannot be assumed order-preserving or escapable", p.ipos(acts[k].mk))
 		}
 	}
 	c.inv("queues_checked", n)
@@ -289,4 +296,39 @@ func rulePerEnvelopeGoroutines(c *Ctx, rule string) {
 		c.check(rule, construct, ok, "goroutine started with an envelope: allowed only for the stream-open envelope (one goroutine per stream); a goroutine per message reorders a stream", p.ipos(gs.Instr))
 	}
 	c.floor(rule, "go statements", n, 12)
+}
+
+// carriesEnvelope: values of type t hold (directly or through pointers, structs, slices, arrays, maps, channels) a
+// generated protobuf message, or are interfaces / functions (which may).
+func carriesEnvelope(t types.Type, depth int) bool {
+	if depth > 4 {
+		return true
+	}
+	if isProtoMsg(t) {
+		return true
+	}
+	switch x := t.Underlying().(type) {
+	case *types.Pointer:
+		return carriesEnvelope(x.Elem(), depth+1)
+	case *types.Slice:
+		return carriesEnvelope(x.Elem(), depth+1)
+	case *types.Array:
+		return carriesEnvelope(x.Elem(), depth+1)
+	case *types.Chan:
+		return carriesEnvelope(x.Elem(), depth+1)
+	case *types.Map:
+		return carriesEnvelope(x.Elem(), depth+1) || carriesEnvelope(x.Key(), depth+1)
+	case *types.Struct:
+		for i := 0; i < x.NumFields(); i++ {
+			if carriesEnvelope(x.Field(i).Type(), depth+1) {
+				return true
+			}
+		}
+		return false
+	case *types.Interface:
+		return !types.Identical(t, types.Universe.Lookup("error").Type())
+	case *types.Signature:
+		return true
+	}
+	return false
 }
